@@ -366,6 +366,9 @@ class Codec:
         rng = self.rng
         if a is None:
             a = bad_sargs(rng) if rng.random() < 0.2 else good_sargs(rng)
+            if rng.random() < 0.12:
+                a = (rng.choice(['list', 'tuple']), [('int', c) for c in rng.choice([[38, 5], [48, 2, 10, 20], [1, 58, 5], [38, 2, 1, 2, 3, 4], [4, 38, 5, 200],
+                                                                                    [38], [38, 5, 1, 48], [58, 2], [38, 7, 1], [0, 38, 5, 9, 0]])])
             if rng.random() < 0.2:
                 a = ('list', [a, ('tuple', [good_sargs(rng), ('list', [good_sargs(rng)])])])
         import ansi_string.ansi_string as core
@@ -388,6 +391,20 @@ class Codec:
                 type(a[1]).__name__, 'accepted as %r' % [str(q) for q in out[1]] if out[0] == 'ok' else 'answered with %r' % out[1])))
         if a[0] in ('list', 'tuple') and any(q[0] == 'bad' and q[1] is not None and not isinstance(q[1], (list, tuple)) for q in a[1]) and out[0] == 'ok':
             viol.append(('C14', 'reject_type', 'a list holding an unsupported type is accepted: %r -> %r' % (a, [str(q) for q in out[1]])))
+        if a[0] in ('list', 'tuple') and a[1] and all(q[0] == 'int' and q[1] >= 0 for q in a[1]) and out[0] == 'ok':
+            # a run of integer codes is read like the same codes in one `;`-separated string: every colour
+            # function with the arguments that follow it — complete or cut short by the end of the run — is ONE setting
+            cs = [q[1] for q in a[1]]
+            groups, i = [], 0
+            while i < len(cs):
+                if cs[i] in (38, 48, 58) and i + 1 < len(cs) and cs[i + 1] in (5, 2):
+                    k = 3 if cs[i + 1] == 5 else 5
+                    groups.append(';'.join(str(c) for c in cs[i:i + k])); i += k
+                else:
+                    groups.append(str(cs[i])); i += 1
+            got = [str(q) for q in out[1]]
+            if got != groups:
+                viol.append(('C14', 'int_grouping', 'the codes %r give the settings %r, read as one sequence they are %r' % (cs, got, groups)))
         if a[0] == 'str':
             want = O.format_string_accepts(a[1], self.mod.AnsiFormat.__members__)
             if want is True and out[0] != 'ok':
